@@ -1,7 +1,7 @@
 (* C02: parse_render theorems for ISO date-times followed by a numeric UTC offset +HH:MM / +HH. *)
 From Coq Require Import ZArith List Bool Lia ZifyBool.
 From V Require Import base.Cal gen.ParseTables parse.Lex parse.Prim parse.Ymd parse.Parse parse.Build
-                      parse.ParseSpec parse.LexSeg parse.TokFacts parse.YearThm parse.RenderTac parse.RenderTac3 parse.RenderIso parse.TokFacts2 parse.RenderOffDefs parse.RenderOff_JT_THM parse.RenderOff_JSpace_THM.
+                      parse.ParseSpec parse.LexSeg parse.TokFacts parse.YearThm parse.RenderTac parse.RenderTac3 parse.RenderIso parse.TokFacts2 parse.RenderOffDefs parse.RenderOff_JT_THM parse.RenderOff_JSpace_THM parse.RenderOff_JT_THMS parse.RenderOff_JSpace_THMS.
 Import ListNotations.
 Open Scope Z_scope.
 Ltac Zify.zify_post_hook ::= Z.to_euclidean_division_equations.
@@ -41,22 +41,24 @@ Local Arguments Z.opp !x.
 
 Local Arguments firstn : simpl never.
 Local Arguments skipn : simpl never.
-(* YYYY-MM-DD{T, space}HH:MM followed by +HH:MM / -HH:MM / +HH / -HH (offsets -23:59 .. +23:59):
-   aware result with exactly the rendered offset, UTC when it is zero; naive with ignoretz.
-   "UTC" must not be a local zone name (a zero offset would resolve to the local zone, notes O3).
-   (The HH:MM:SS variants go through the same script but did not finish in 15 minutes: tested-only.) *)
-Theorem parse_render_iso_offset_lemma : forall j ofm d o df cy loc n0 n1 yf ig,
-  In j plain_joiners -> In ofm zone_oforms ->
+(* YYYY-MM-DD{T, space}{HH:MM, HH:MM:SS} followed by +HH:MM / -HH:MM / +HH / -HH (offsets
+   -23:59 .. +23:59): aware result with exactly the rendered offset, UTC when it is zero; naive
+   with ignoretz.  "UTC" must not be a local zone name (a zero offset would resolve to the local
+   zone, notes O3). *)
+Theorem parse_render_iso_offset_lemma : forall j tf ofm d o df cy loc n0 n1 yf ig,
+  In j plain_joiners -> In tf plain_tforms -> In ofm zone_oforms ->
   valid_dt d = true -> valid_dt df = true -> wf_off o = true -> smem utc_name loc = false ->
-  parse (opts_df0 yf ig df cy loc n0 n1) (render (TDT DIso j THM ofm) d o)
-  = OutOk (expected_dt (TDT DIso j THM ofm) d df)
+  parse (opts_df0 yf ig df cy loc n0 n1) (render (TDT DIso j tf ofm) d o)
+  = OutOk (expected_dt (TDT DIso j tf ofm) d df)
           (if ig then ZNaive else
-           match expected_off (TDT DIso j THM ofm) o with Some v => zone_of_off v | None => ZNaive end)
+           match expected_off (TDT DIso j tf ofm) o with Some v => zone_of_off v | None => ZNaive end)
           0 false [].
 Proof.
-  intros j ofm d o df cy loc n0 n1 yf ig Hj Hofm Hd Hdf Ho Hloc.
-  unfold plain_joiners in *. cbn [In] in Hj.
-  destruct Hj as [<- | [<- | []]].
+  intros j tf ofm d o df cy loc n0 n1 yf ig Hj Htf Hofm Hd Hdf Ho Hloc.
+  unfold plain_joiners, plain_tforms in *. cbn [In] in Hj, Htf.
+  destruct Hj as [<- | [<- | []]]; destruct Htf as [<- | [<- | []]].
   - apply parse_render_iso_offset_JT_THM; assumption.
+  - apply parse_render_iso_offset_JT_THMS; assumption.
   - apply parse_render_iso_offset_JSpace_THM; assumption.
+  - apply parse_render_iso_offset_JSpace_THMS; assumption.
 Qed.
